@@ -855,6 +855,7 @@ def run(rep):
         if r['problems']:
             rep.finding('unlisted', {'family': r['family'], 'length': r['length'], 'exit_status': r['status'], 'what': r['problems'][:4], 'stderr': r['stderr'],
                                      'config': r.get('config', '')})
+    __import__('c18seq').stage(rep, tools, sc, rng)     # position family: the failing path in the middle of an action list
     unit = unit_paths(rep, sc)
     if unit['model_mismatches'] and not rep.violations:
         rep.violation({'obligation': 'correspondence util.c (pathjoin, pathslice) <-> Model/Flags.lean', 'disagreements': unit['model_mismatches'],
